@@ -1,7 +1,7 @@
 #!/bin/bash
 # selftest/all.sh [tier] — run every check once (VERIF_SEED honoured) and print one line per check.
 TIER="${1:-quick}"
-cd /verif || exit 2
+cd "$(dirname "$0")/.." || exit 2
 rc_all=0
 for i in $(seq -w 1 20); do
   s=$(date +%s.%N)
